@@ -1114,6 +1114,9 @@ func execMulti(mode string, subs []string) string {
 			}
 			cheap := true
 			want := decQ(s, &cheap)()
+			if bad := framedLoop(s); bad != "" {
+				first = bad
+			}
 			for k := 0; k < reps; k++ {
 				o := decQ(s, &cheap)
 				if k%64 == 0 {
@@ -1365,4 +1368,47 @@ func execReuse(f []string) string {
 		stable = "input-mutated"
 	}
 	return fmt.Sprintf("ok %s w=%s b=%s %d %s", d0, w0, b0, rest, stable)
+}
+
+// framedLoop: one message value written and read back through WriteMessageWithEncodingN / ReadMessageWithEncodingN
+// many times by this goroutine while the others do the same with their own values.
+func framedLoop(sub string) string {
+	p := strings.Split(sub, "/")
+	if len(p) != 4 || p[0] == "header" || len(p[3]) > 700 {
+		return ""
+	}
+	pv, _ := strconv.ParseUint(p[1], 10, 32)
+	pver := uint32(pv)
+	enc := parseEnc(p[2])
+	m, _, ok := emptyOf(p[0])
+	if !ok {
+		return ""
+	}
+	msg := m.(wire.Message)
+	if err := msg.BtcDecode(bytes.NewBuffer(mustHex(p[3])), pver, enc); err != nil {
+		return ""
+	}
+	var first []byte
+	want := dump(msg, pver)
+	for k := 0; k < 1500; k++ {
+		var w bytes.Buffer
+		if _, err := wire.WriteMessageWithEncodingN(&w, msg, pver, wire.MainNet, enc); err != nil {
+			return ""
+		}
+		if first == nil {
+			first = append([]byte{}, w.Bytes()...)
+		} else if !bytes.Equal(first, w.Bytes()) {
+			return "unstable-write"
+		}
+		if k%25 == 0 {
+			_, back, _, err := wire.ReadMessageWithEncodingN(bytes.NewReader(w.Bytes()), pver, wire.MainNet, enc)
+			if p[0] == "wtxidrelay" {
+				continue // F-C08-c
+			}
+			if err != nil || dump(back, pver) != want {
+				return "unstable-read"
+			}
+		}
+	}
+	return ""
 }
